@@ -226,6 +226,9 @@ pub(crate) mod v4 {
         pub const PORT_UNREACHABLE: DestinationUnreachableCode = DestinationUnreachableCode(3);
         pub const FRAGMENTATION_NEEDED: DestinationUnreachableCode = DestinationUnreachableCode(4);
         pub const ROUTE_FAILED: DestinationUnreachableCode = DestinationUnreachableCode(5);
+        /// The last of the codes assigned by RFC 1122 (6-12) and RFC 1812 (13-15),
+        /// e.g. 13 = communication administratively prohibited
+        pub const PRECEDENCE_CUTOFF: DestinationUnreachableCode = DestinationUnreachableCode(15);
     }
 
     #[derive(Debug, Clone)]
@@ -525,6 +528,9 @@ pub(crate) mod v4 {
                         DestinationUnreachableCode(code)
                     }
                     DestinationUnreachableCode::ROUTE_FAILED => DestinationUnreachableCode(code),
+                    _ if code <= DestinationUnreachableCode::PRECEDENCE_CUTOFF.0 => {
+                        DestinationUnreachableCode(code)
+                    }
                     _ => return Err(super::DeserializeError::DestinationUnreachableCode(code)),
                 },
                 data: packet.split_off(4),
@@ -642,6 +648,10 @@ pub(crate) mod v6 {
         pub const SOURCE_FAILED_POLICY: DestinationUnreachableCode = DestinationUnreachableCode(5);
         /// Reject route to destination
         pub const REJECT_ROUTE: DestinationUnreachableCode = DestinationUnreachableCode(6);
+        /// Error in Source Routing Header (RFC 6554)
+        pub const SOURCE_ROUTING_HEADER: DestinationUnreachableCode = DestinationUnreachableCode(7);
+        /// Headers too long (RFC 8883)
+        pub const HEADERS_TOO_LONG: DestinationUnreachableCode = DestinationUnreachableCode(8);
     }
 
     #[derive(Debug, Clone)]
@@ -849,6 +859,10 @@ pub(crate) mod v6 {
                         DestinationUnreachableCode(code)
                     }
                     DestinationUnreachableCode::REJECT_ROUTE => DestinationUnreachableCode(code),
+                    DestinationUnreachableCode::SOURCE_ROUTING_HEADER => {
+                        DestinationUnreachableCode(code)
+                    }
+                    DestinationUnreachableCode::HEADERS_TOO_LONG => DestinationUnreachableCode(code),
                     _ => return Err(super::DeserializeError::DestinationUnreachableCode(code)),
                 },
                 data: packet.split_off(4),
